@@ -1210,6 +1210,13 @@ impl Hasher {
         self.update_with_join::<join::SerialJoin>(input)
     }
 
+    /// Verification hook: `update` with the scripted `VerifJoin` (see `verif.rs`).
+    #[cfg(all(blake3_team_blake3_verif, feature = "std"))]
+    #[doc(hidden)]
+    pub fn verif_update_with_join(&mut self, input: &[u8]) -> &mut Self {
+        self.update_with_join::<join::VerifJoin>(input)
+    }
+
     fn update_with_join<J: join::Join>(&mut self, mut input: &[u8]) -> &mut Self {
         let input_offset = self.initial_chunk_counter * CHUNK_LEN as u64;
         if let Some(max) = hazmat::max_subtree_len(input_offset) {
